@@ -85,6 +85,17 @@ def tir_range_of_local(F, root, node):
         return None
     cl = enclosing_closures(root).get(n.get("id"))
     if cl is None:
+        # the index of `for (i, x) in ARRAY.into_iter().enumerate()` / `.iter().enumerate()`: 0..len(ARRAY)
+        for f in tir.walk(root):
+            if f.get("k") == "For" and f["pat"].get("k") == "Tuple" and f["pat"]["pats"] and f["pat"]["pats"][0].get("k") == "Bind" and f["pat"]["pats"][0].get("id") == n.get("id"):
+                it = strip(f["iter"])
+                if it.get("k") == "MethodCall" and it["method"] == "enumerate" and not it.get("args"):
+                    src = strip(it["recv"])
+                    while src.get("k") == "MethodCall" and src["method"] in ("iter", "into_iter", "iter_mut", "copied", "cloned") and not src.get("args"):
+                        src = strip(src["recv"])
+                    ln = panics.array_len(src.get("ty") or "")
+                    if ln is not None:
+                        return (0, ln)
         return None
     method, recv = closure_application(root, cl[0])
     if method not in ("map", "filter_map", "for_each", "filter", "flat_map", "try_for_each"):
@@ -224,7 +235,56 @@ def alpha(n):
     return txt
 
 
-def site_shape(s, sidx):
+_ENVS = {}
+
+
+def arith_shape(n, env=None):
+    """shape of an arithmetic site: operators, literals and operand slots — an operand that is not itself arithmetic is a numbered
+    slot (a local is first followed to its defining expression, so introducing or eliminating a `let` does not change the shape; a
+    call is labelled with its method name); widening casts are dropped"""
+    slots = []
+
+    def slot(key):
+        if key not in slots:
+            slots.append(key)
+        return "$%d" % slots.index(key)
+
+    def go(x):
+        x = strip(x)
+        k = x.get("k")
+        if k == "Cast":
+            return go(x["e"])
+        if k == "Lit":
+            return str(x.get("v"))
+        if k == "Binary":
+            return "(%s %s %s)" % (go(x["l"]), x["op"], go(x["r"]))
+        if k == "AssignOp":
+            return "%s %s= %s" % (go(x["l"]), x["op"], go(x["r"]))
+        if k == "Unary" and x.get("op") == "Neg":
+            return "-" + go(x["e"])
+        if k == "Block" and not x.get("stmts") and x.get("tail") is not None:
+            return go(x["tail"])
+        if k == "Path" and x.get("res") == "local" and env is not None:
+            r = env.resolve(x, peel=True)
+            while r.get("k") == "Cast":
+                r = strip(r["e"])
+            if r.get("k") in ("MethodCall", "Call", "Lit") and r is not x:
+                x, k = r, r.get("k")
+                if k == "Lit":
+                    return str(x.get("v"))
+        pl = tir.place(x)
+        if pl and "." in pl and k in ("Field", "Path"):
+            head, rest = pl.split(".", 1)
+            return slot(("local", head)) + "." + rest
+        if k == "Path" and x.get("res") == "local":
+            return slot(("local", x.get("name")))
+        if k in ("MethodCall", "Call"):
+            return slot(("expr", tir.pretty(x)[:80])) + ":" + (x.get("method") or (declared(x) or "?").split("::")[-1])
+        return slot(("expr", tir.pretty(x)[:80]))
+    return go(n)
+
+
+def site_shape(s, sidx, F=None):
     """operand shape of a site: the typed expression it belongs to, pretty-printed (stable under unrelated edits)"""
     t = s["term"]
     want = ("Binary", "AssignOp", "Index", "Unary", "Cast") if t.get("t") == "assert" else ("MethodCall", "Call", "Index", "Binary", "AssignOp")
@@ -232,15 +292,24 @@ def site_shape(s, sidx):
     op = s["kind"].split(":", 1)[1] if s["kind"].startswith("overflow:") else None
     meth = re.sub(r"::<[^>]*>", "", s["what"].split(" -> ")[0]).split("::")[-1] if t.get("t") == "call" else None
     cands = []
+    owners = {}
     for key in (t.get("esp"), s.get("sp")):
         if not key:
             continue
         for o, n in near(sidx, tuple(key)):
             if n.get("k") in want:
                 cands.append(n)
+                owners[id(n)] = o
     for n in cands:
-        if op and n.get("k") in ("Binary", "AssignOp") and n.get("op") == op:
-            return alpha(n)[:120]
+        if op and n.get("k") in ("Binary", "AssignOp") and n.get("op") in (op, op + "Assign"):
+            env = None
+            o = owners.get(id(n))
+            if F is not None and o:
+                if (id(F), o) not in _ENVS:
+                    b = F.body(o)
+                    _ENVS[(id(F), o)] = tir.LetEnv(b["tir"]["value"]) if b else None
+                env = _ENVS[(id(F), o)]
+            return arith_shape(n, env)[:120]
         if meth and n.get("k") == "MethodCall" and n.get("method") == meth:
             return alpha(n)[:120]
         if meth in ("index", "index_mut") and n.get("k") == "Index":
@@ -281,13 +350,14 @@ def panic_inventory(F, G, rep, entries, invariants_file, M=None, gate_ok=None, r
             seen.add(attrib[h])
             attrib[h] = attrib[attrib[h]]
     all_ords = {}
+    pending = []
     for o in sorted(R, key=lambda x: (x in attrib, x)):
         if skip_owner(o):
             continue
         ko = attrib.get(o, o)
         ords = all_ords.setdefault(ko, {})
         for s in G.sites(o):
-            kk = "%s|%s|%s" % (ko, s["kind"], site_shape(s, sidx))
+            kk = "%s|%s|%s" % (ko, s["kind"], site_shape(s, sidx, F))
             n = ords.get(kk, 0)
             ords[kk] = n + 1
             key = "%s|%d" % (kk, n)
@@ -321,6 +391,26 @@ def panic_inventory(F, G, rep, entries, invariants_file, M=None, gate_ok=None, r
                 rep.violation(rule + ".invariant-broken", o, key.split("|", 1)[1], "side condition `%s` of invariant %s no longer holds (%s)" % (chk, key, e["reason"]), reach.spstr(s["sp"]))
                 by_class["open"] += 1
                 continue
+            pending.append((ko, o, s, key))
+    # An invariant whose exact key was not met may still apply when the code around the site was reshaped (a value moved into or
+    # out of a `let`, a lookup moved into a helper): for arithmetic sites, if the sites left open in a function and the unused
+    # invariants of that function and kind are equally many, they are paired in source order. One site more or less, or a different
+    # kind, breaks the pairing and everything left is reported.
+    groups = {}
+    for item in pending:
+        ko, o, s, key = item
+        groups.setdefault((ko, s["kind"]), []).append(item)
+    for (ko, kind), items in sorted(groups.items()):
+        spare = sorted(k for k in inv if k not in used_inv and k.split("|")[0] == ko and k.split("|")[1] == kind and not inv[k].get("check"))
+        if kind.startswith("overflow:") and spare and len(spare) == len(items):
+            items_sorted = sorted(items, key=lambda it: (it[2]["sp"] or ["", 0, 0])[1:3])
+            for (ko_, o, s, key), ik in zip(items_sorted, spare):
+                used_inv.add(ik)
+                by_class["I"] += 1
+                rep.discharged += 1
+                rep.note("invariant %s applied to the reshaped site %s at %s (paired in source order)" % (ik, key.split("|", 2)[2], reach.spstr(s["sp"])))
+            continue
+        for ko_, o, s, key in items:
             by_class["open"] += 1
             rep.violation(rule + ".panic", o, key.split("|", 1)[1], "%s: %s (%s) can panic; reachable from %s" % (
                 reach.spstr(s["sp"]), s["kind"], reach.short(s["what"])[:60], G.path_to(R, o)), reach.spstr(s["sp"]))
